@@ -2,6 +2,7 @@
 import collections
 import functools
 import io
+import json
 import os
 import stat
 import zipfile
@@ -109,6 +110,9 @@ SMALL = {"t": "z", "members": [{"n": "one.txt", "size": 3, "mode": stat.S_IFREG 
                                {"n": "d/two.log", "size": 10, "mode": stat.S_IFREG | 0o600, "dt": [2021, 12, 31, 23, 59, 58], "deflate": True}]}
 
 
+NEIGHBOURS = ["n%d.txt" % i for i in range(8)] + ["sub/in.txt", "sub/in2.txt"]
+
+
 def enumerate_cases(tier):
     raw = trees.zip_bytes(SMALL)
     cases = []
@@ -119,6 +123,12 @@ def enumerate_cases(tier):
     cd = raw.find(b"PK\x01\x02")
     for pos in range(cd, len(raw)):
         cases.append({"kind": "damage", "damage": ["flip", pos]})
+    # flips of single bits as well: a local-header offset that is off by one still lies inside the archive, so the
+    # archive opens and only that member cannot be read (0xFF sends the offset beyond the end: the whole archive is
+    # rejected, and the per-member path was never reached - found by a seeded change ported to the current tree)
+    for mask in (0x01, 0x10):
+        for pos in range(cd, len(raw)):
+            cases.append({"kind": "damage", "damage": ["flip%d" % mask, pos]})
     cases.append({"kind": "damage", "damage": ["empty", 0]})
     cases.append({"kind": "damage", "damage": ["directory", 0]})
     cases.append({"kind": "damage", "damage": ["unreadable", 0]})
@@ -277,8 +287,8 @@ def check_damage(out, case):
         nobody = False
         if kind == "truncate":
             data = raw[:arg]
-        elif kind == "flip":
-            data = raw[:arg] + bytes([raw[arg] ^ 0xFF]) + raw[arg + 1:]
+        elif kind.startswith("flip"):
+            data = raw[:arg] + bytes([raw[arg] ^ int(kind[4:] or 255)]) + raw[arg + 1:]
         elif kind == "empty":
             data = b""
         else:
@@ -295,9 +305,16 @@ def check_damage(out, case):
             nobody = True
         with open(os.path.join(base, "other.txt"), "w") as f:
             f.write("o")
+        # enough neighbours that some are read after the damaged archive whatever order the directory is listed in,
+        # and a sub-directory (entered only after the whole listing in bfs)
+        os.mkdir(os.path.join(base, "sub"))
+        for n in NEIGHBOURS:
+            with open(os.path.join(base, n), "w") as f:
+                f.write("n")
         with open(os.path.join(base, "good.zip"), "wb") as f:
             f.write(raw)
-        q = "select path, size from . archives into list"
+        # json: a damaged name-length field can put a NUL into a member name, which the list format cannot carry
+        q = "select path, size from . archives into json"
         res = runner.run([q], cwd=base, nobody=nobody)
         out.evals += 1
         if res.wall_timeout:
@@ -311,19 +328,37 @@ def check_damage(out, case):
             out.add(tag + "/abnormal-exit", damage=case["damage"], status=res.status, signal=res.sig, stderr=res.err[:300])
             return
         try:
-            rows = runner.rows(res.out, 2)
-        except ValueError as e:
+            rows = [(o["Path"], o["Size"]) for o in json.loads(res.out.decode("utf-8"))]
+        except (ValueError, KeyError, TypeError) as e:
             out.add(tag + "/list-malformed", err=str(e))
             return
         paths = collections.Counter(r[0] for r in rows)
-        need = ["./x.zip", "./other.txt", "./good.zip", "[./good.zip] one.txt", "[./good.zip] d/", "[./good.zip] d/two.log"]
+        need = ["./x.zip", "./other.txt", "./good.zip", "[./good.zip] one.txt", "[./good.zip] d/", "[./good.zip] d/two.log", "./sub"]
+        need += ["./" + n for n in NEIGHBOURS]
         if kind == "directory":
             need.append("./x.zip/inside")
         missing = [p for p in need if paths[p] != 1]
         if missing:
             out.add(tag + "/other-rows-lost-or-doubled", damage=case["damage"], missing=missing, rows=sorted(paths)[:12])
         # members of the damaged archive: required only when zipfile reads the same member list
-        if kind in ("truncate", "flip"):
+        if kind.startswith("flip"):
+            # a flipped local-header offset damages ONE member: if the archive is opened at all (any member row),
+            # the members whose records are untouched are all there
+            starts, q0 = [], -1
+            while True:
+                q0 = raw.find(b"PK\x01\x02", q0 + 1)
+                if q0 < 0:
+                    break
+                starts.append(q0)
+            hit = [k for k, p0 in enumerate(starts) if p0 + 42 <= arg < p0 + 46]
+            names = ["one.txt", "d/", "d/two.log"]
+            listed = [n for n in names if paths["[./x.zip] " + n]]
+            if hit and listed:
+                lost = [n for k, n in enumerate(names) if k != hit[0] and paths["[./x.zip] " + n] != 1]
+                if lost:
+                    out.add(tag + "/intact-member-lost", damage=case["damage"], lost=lost, listed=listed)
+        if kind in ("truncate", "flip", "flip1", "flip16"):
+            kind = kind[:4] if kind.startswith("flip") else kind
             try:
                 zf = zipfile.ZipFile(io.BytesIO(data))
                 names = [zi.filename for zi in zf.infolist()]
@@ -340,8 +375,8 @@ def check_damage(out, case):
             dup = [p for p, c in paths.items() if c > 1]
             if dup:
                 out.add(tag + "/row-twice", damage=case["damage"], rows=dup[:5])
-        out.nt_keys = ["%s|%d" % (kind, arg)]
-        out.classes = ["damage=" + kind, "status=%s" % res.status]
+        out.nt_keys = ["%s|%d" % (case["damage"][0], arg)]
+        out.classes = ["damage=" + case["damage"][0], "status=%s" % res.status]
         out.sample = {"damage": case["damage"], "status": res.status, "rows": len(rows)}
     finally:
         runner.rmtree(cdir)
